@@ -12,6 +12,7 @@ def run(ctx):
     ctx.rule("R-SNAPSHOT", "job-thread scans iterate a snapshot", floor=5)
     ctx.rule("R-LISTENER-CONTAIN", "exceptions from frame handling are contained at the bus listener", floor=1)
     ctx.rule("R-RAISE-CONFINED", "explicit raises of the data link layer are not reachable from the job thread", floor=2)
+    ctx.rule("R-PEER-255", "control frames from the illegal source address 255 never reach the stack's own broadcast sessions", floor=6)
     for fd in (False, True):
         L = T.Layer(ctx, fd=fd)
         TM.rearm(ctx, L)
@@ -20,5 +21,8 @@ def run(ctx):
         R.job_subscript(ctx, L)
         R.snapshot(ctx, L)
         R.raise_confined(ctx, L)
+        R.bam_key_guard(ctx, L)
     R.listener_contain(ctx)
+    ctx.rule("R-LOOP-PROGRESS", "every way round a while-loop of the stack changes something its exit tests read (no frame can make a thread spin)", floor=8)
+    R.loop_progress(ctx, ("J1939_21", "J1939_22", "ElectronicControlUnit", "ControllerApplication"))
     return "liveness-shaped structural clauses of C07 decided on both data link layers and the bus listener"
